@@ -200,3 +200,23 @@ def shrink_single_step(scn):
                     del c['project']['apps'][a]['v0'][mi]['meta'][key][ei]
                     if _valid(c):
                         yield c
+
+
+def row_model_after(scn, app='va', step=0):
+    """Row model after the step's mutations, plus the set of (table, column)
+    whose declared type changed (compared affinity-tolerantly)."""
+    P = scn['project']
+    sts = proj.states(P)
+    st = copy.deepcopy(sts[step])
+    rows = copy.deepcopy(scn['rows'])
+    changed = set()
+    for evo in P['apps'][app]['steps'][step]['evos']:
+        for m in evo['mutations']:
+            new = spec.apply_mutation(st, app, m)
+            rows = rowmodel.apply(rows, st, new, app, m)
+            if m['op'] == 'ChangeField' and m.get('kind'):
+                mm = spec.find_model(new['apps'][app]['models'], m['model'])
+                ff = spec.find_field(mm, m['name'])
+                changed.add((spec.table_name(app, mm), spec.column_name(ff)))
+            st = new
+    return rows, changed
